@@ -496,3 +496,23 @@ example :
     (Stream.File.fread [1, 2, 3] (Stream.File.step [1, 2, 3] t (.seek 0 .set)).2 1 2).2.1 = [1, 2] := by decide
 
 end Xmp.TestLoad
+
+namespace Xmp.TestLoad
+
+/-! ## chunk walkers: the step of a test function against the step of its loader's IFF walk -/
+
+/-- a test function that walks chunks by a non-literal relative seek steps exactly like every IFF walk of its
+loader: the distance is the plain value of the size field, read with the same fixed-width reader, and the
+loader's walk has no quirk that changes the step (alignment, full-chunk size, truncation, embedded RIFF).
+(`param` — a seek by the function's own `start` argument — is no chunk step.) -/
+def chunkStepOk (f : Gen.TestFacts) : Bool :=
+  (f.chunkSteps.filter (· != "param")).all fun st =>
+    !f.iffSteps.isEmpty && f.iffSteps.all fun l => st == "exact:" ++ l
+
+/-- **every chunk-walking test function steps from chunk to chunk exactly as its loader does** (syntactically the
+same step: regenerated from the sources) -/
+theorem C11_chunk_steps :
+    Gen.testFacts.all chunkStepOk = true ∧
+    1 ≤ (Gen.testFacts.filter fun f => !(f.chunkSteps.filter (· != "param")).isEmpty).length := by decide
+
+end Xmp.TestLoad
